@@ -336,9 +336,8 @@ func floatSame(a, b float64) bool { return a == b && math.Float64bits(a) != math
 func (st *State) guard(node reflect.Value, c *Call, args []reflect.Value) bool {
 	cfg := st.Cfg
 	key := navKey(c.Nav)
-	if cfg.GenSafe && st.belowMovedElement(key) {
-		return false
-	}
+	// (calls below an element of a multimap that has grown were avoided here until the stale
+	// parent links after a reallocation were repaired in /repo: multimap-realloc-stale-parent)
 	switch c.Tag {
 	case 'F':
 		if cfg.AllowNegZero {
